@@ -173,7 +173,41 @@ def network_formulas(ctx, rid):
                "duration of an activity = end_time - start_time", "useful duration and all duration-based costs are wrong")
 
 
-def truth_rule(ctx, oid, key, text, sources, expect, consequence=""):
+def param_never_tested(fd, param):
+    """no comparison, discriminant read or boolean-valued call of the body looks at parameter `param` itself (directly, through copies
+    and references), so no test of it can exist however it is written; values computed from it by other calls (look-ups) do not count"""
+    def is_param(op_or_local):
+        if isinstance(op_or_local, int):
+            l = op_or_local
+            seen = 0
+            while seen < 8:
+                seen += 1
+                if l == param:
+                    return True
+                ds = [d for d in fd.defs.get(l, ()) if d.kind != "param"]
+                if len(ds) != 1 or ds[0].kind != "assign" or ds[0].instr is None or ds[0].instr.rv_kind() not in ("use", "ref") \
+                        or not ds[0].instr.ops or ds[0].instr.ops[0].place is None:
+                    return False
+                l = ds[0].instr.ops[0].place.local
+            return False
+        if op_or_local.place is None:
+            return False
+        return is_param(op_or_local.place.local)
+    for ins in fd.body.instrs():
+        if ins.kind == "call":
+            ret_ty = fd.body.local_ty(ins.dest.local) if ins.dest is not None and ins.dest.is_local else ""
+            if (ret_ty == "bool" or (ins.decl or "").startswith("core::cmp::")) and any(is_param(a) for a in ins.args):
+                return False
+        elif ins.kind == "assign" and ins.rv_kind() == "discr":
+            if is_param(ins.discr_place().local):
+                return False
+        elif ins.kind == "assign" and ins.rv_kind() == "binop" and ins.rv["op"] in ("Eq", "Ne", "Lt", "Le", "Gt", "Ge"):
+            if any(is_param(op) for op in ins.ops):
+                return False
+    return True
+
+
+def truth_rule(ctx, oid, key, text, sources, expect, consequence="", absent=None):
     """small truth tables: `sources` = [(name, predicate(instr) -> 'pos' | 'neg' | None)] identifies boolean-valued calls in the body
     ('neg' for the negated form, e.g. ne for "equal"); `expect(case dict) -> 'T' | 'F' | None` is the documented answer"""
     from .. import optabs
@@ -184,6 +218,10 @@ def truth_rule(ctx, oid, key, text, sources, expect, consequence=""):
     found = []
     for name, pred in sources:
         hit = [(ins, pred(ins)) for ins in fd.body.calls() if pred(ins)]
+        if not hit and absent and name in absent and absent[name](fd):
+            # the quantity is provably not looked at: the answer cannot depend on it (a free variable of the table)
+            found.append((name, None, None))
+            continue
         if len(hit) != 1:
             ctx.undecided(o, "the test `%s` is not found exactly once (%d)" % (name, len(hit)))
             return
@@ -196,6 +234,8 @@ def truth_rule(ctx, oid, key, text, sources, expect, consequence=""):
             continue
         src = {}
         for (n, ins, pol), v in zip(found, combo):
+            if ins is None:
+                continue
             if isinstance(pol, dict):           # explicit abstract values for yes / no (e.g. an Option-valued call)
                 src[ins.id] = pol[v == "T"]
             else:
@@ -249,7 +289,8 @@ def network_predicates(ctx, rid):
                    [("no entry", lambda ins: {True: "N", False: "S"} if (ins.callee or "").endswith("Locations::get_dead_head_trip") else None),
                     ("a is Nowhere", nowhere_test(2)), ("b is Nowhere", nowhere_test(3))],
                    lambda c: None if not c["no entry"] else (inf if (c["a is Nowhere"] or c["b is Nowhere"]) else "ZERO"),
-                   "the overflow depot becomes free to reach: every vehicle is sent there")
+                   "the overflow depot becomes free to reach: every vehicle is sent there",
+                   absent={"a is Nowhere": lambda f: param_never_tested(f, 2), "b is Nowhere": lambda f: param_never_tested(f, 3)})
     truth_rule(ctx, "%s.compatible_with_vehicle_type" % rid, N("compatible_with_vehicle_type"),
                "a node is compatible with a type iff it is not a service trip or its route's type equals it",
                [("service trip", named("Node::is_service")), ("same type", eq_or_ne)],
@@ -385,6 +426,8 @@ def tour_delta_signs(ctx, rid):
                         # a sum over positions of self (a range) leaves, a sum over the new nodes comes
                         if any(c.startswith("agg:") and "Range" in c for c in calls):
                             want = -1           # positions start..end of self
+                        elif name == "remove":
+                            want = -1           # remove adds no nodes: every sum is over (a slice of) the removed positions
                         elif 2 in ps or any(c.endswith("Path::consume") or c.endswith("Path::iter") for c in calls):
                             want = 1            # the nodes of the inserted path
                         else:
@@ -585,7 +628,16 @@ def transition_formulas(ctx, rid):
             sl = fd.slice_operand_pure(idx[0], idx[0].args[1])
             zero = any(d.instr is not None and d.instr.kind == "assign" and d.instr.rv_kind() == "use" and d.instr.ops
                        and d.instr.ops[0].place is None and d.instr.ops[0].const_val() == 0 for d in sl["defs"])
-            if "op:Rem" in cs or zero:
+            wrong_mod = None
+            if e[0] == "bin" and e[1] == "Rem" and len(e) > 3:
+                m = e[3]
+                # the modulus is the length of the vehicle's own cycle (an element of self.cycles), not the number of cycles
+                if m[0] == "call" and m[1].endswith("::len") and m[2] and m[2][0][0] == "field":
+                    wrong_mod = shape.show(m)
+            if wrong_mod:
+                ctx.bad(o, "the successor index wraps at %s, the number of cycles, instead of the length of the vehicle's own cycle: the last "
+                        "vehicle of a cycle gets a wrong successor (or the index runs out of the cycle)" % wrong_mod, loc=idx[0].line())
+            elif "op:Rem" in cs or zero:
                 ctx.ok(o, "index = %s" % shape.show(e)[:120])
             elif "op:Add" in cs and e[0] != "?":
                 ctx.bad(o, "the index of the successor is %s: it never wraps to 0, so the last vehicle of a cycle has no (or a wrong) successor and its "
@@ -640,9 +692,31 @@ def transition_formulas(ctx, rid):
                     bad.append("the %s is taken at position %s 1" % (who, "+" if sub[2][1][1] == "Add" else "-"))
             elif len(sub[2]) >= 2 and sub[2][1][0] != "bin" and (sub[1].endswith("TransitionCycle::get") or "slice" in sub[1] or "[T]" in sub[1]):
                 bad.append("the %s is taken at the vehicle's own position (no %s 1)" % (who, "-" if want == "Sub" else "+"))
+    # modular form: predecessor at (p + len - 1) % len, successor at (p + 1) % len
+    modular = {}
+    for e, who in ((e0, "predecessor"), (e1, "successor")):
+        for sub in _find_calls(e, "::get"):
+            if len(sub[2]) >= 2 and sub[2][1][0] == "bin" and sub[2][1][1] == "Rem":
+                inner = sub[2][1][2]
+                ops = shape.calls_of(inner)
+                one = "1_usize" in shape.show(inner) or "const 1" in shape.show(inner)
+                minus = "op:Sub" in ops and one
+                plus = "op:Add" in ops and one and "op:Sub" not in ops
+                if who == "predecessor":
+                    if plus:
+                        bad.append("the predecessor is taken at (position + 1) mod len")
+                    elif minus:
+                        modular[who] = True
+                else:
+                    if minus:
+                        bad.append("the successor is taken at (position - 1) mod len")
+                    elif plus:
+                        modular[who] = True
     # the wrap tests: position == 0 for the predecessor, position == len - 1 for the successor
     for ins in fd.body.instrs():
         if ins.kind == "assign" and ins.rv_kind() == "binop" and ins.rv["op"] in ("Eq", "Ne") and ins.rv.get("aty", "").startswith("usize"):
+            if any(op.place is None for op in ins.ops):
+                continue        # a comparison with a constant (also the compiler's `len == 0` test in front of a remainder)
             e = shape.normalise(shape.expr_of_instr(fd, ins))
             for side_e in (e[2], e[3]):
                 if any(c.endswith("::len") for c in shape.calls_of(side_e)):
@@ -650,7 +724,7 @@ def transition_formulas(ctx, rid):
                         bad.append("the last position is tested as `position %s %s` instead of len - 1" % ("==" if ins.rv["op"] == "Eq" else "!=", shape.show(side_e)[:40]))
     if bad:
         ctx.bad(o, "; ".join(sorted(set(bad))) + ": the depot transfers of the rotation cycle are computed between the wrong vehicles", loc=tup[0].line())
-    elif f0["end_depot"] and f1["start_depot"] and f0["last"] and f1["first"]:
+    elif f0["end_depot"] and f1["start_depot"] and (f0["last"] or modular.get("predecessor")) and (f1["first"] or modular.get("successor")):
         ctx.ok(o, "(%s, %s)" % (shape.show(e0)[:80], shape.show(e1)[:80]))
     else:
         ctx.undecided(o, "neighbour look-ups not in a recognised form")
@@ -1027,6 +1101,66 @@ def cluster_loops(ctx, rid):
               "one_cluster_per_maintenance: every vehicle handed in ends up in a cluster (every iteration of both loops pushes its vehicle)",
               "param:1", [("Vec::push", "push_vehicle_to_end_of_cluster")],
               "a vehicle belongs to no rotation cycle: the cycles no longer partition the fleet", which="all")
+    cluster_link(ctx, rid)
+    key = TR("one_cluster_per_maintenance")
+    o, fd0 = ctx.require_fn("%s.cluster-append-adds-the-link" % rid, "T8", key,
+                            "a vehicle joins an existing cluster only through push_vehicle_to_end_of_cluster (which adds the depot link to the "
+                            "cluster's counter); a direct push is used only for the one-vehicle list of a new cluster")
+    if fd0 is not None:
+        direct = []
+        for k in ctx.prog.family(key):
+            b = ctx.prog.bodies[k]
+            for c in b.calls():
+                if not (c.callee or "").endswith("Vec::push") or not c.args or c.args[0].place is None:
+                    continue
+                ty = b.local_ty(c.args[0].place.local)
+                if "VehicleIdx" in ty and "(" not in ty:        # &mut Vec<VehicleIdx>: a cluster itself, not the list of (cluster, counter)
+                    f = ctx.fd(k)
+                    src = f.slice_operand_pure(c, c.args[0])["locals"] if f is not None else ()
+                    # ... taken out of the list of clusters (iter_mut / find / last_mut over Vec<(Vec<VehicleIdx>, counter)>)
+                    if any("VehicleIdx" in b.local_ty(l) and "(" in b.local_ty(l) for l in src):
+                        direct.append(c)
+        via = [c for k in ctx.prog.family(key) for c in ctx.prog.bodies[k].calls() if c.callee == TR("push_vehicle_to_end_of_cluster")]
+        if direct:
+            ctx.bad(o, "a vehicle is pushed onto a cluster directly at %s: the transfer from the cluster's last vehicle to the new one is missing "
+                    "from the cycle's counter" % direct[0].line(), loc=direct[0].line())
+        elif via:
+            ctx.ok(o, "%d append(s), all through push_vehicle_to_end_of_cluster" % len(via))
+        else:
+            ctx.undecided(o, "no append to a cluster found")
+
+
+def cluster_link(ctx, rid):
+    """a vehicle appended to a cluster is linked to the cluster's LAST vehicle: transfer(end depot of last -> its own start depot)"""
+    key = TR("push_vehicle_to_end_of_cluster")
+    o, fd = ctx.require_fn("%s.cluster-link-from-last-vehicle" % rid, "T12", key,
+                           "the transfer added for a vehicle appended to a cluster runs from the end depot of the cluster's last vehicle to the "
+                           "vehicle's own start depot")
+    if fd is None:
+        return
+    verdicts = []
+    for c in fd.body.calls():
+        if not (c.callee or "").endswith("dead_head_distance_between") or len(c.args) < 3:
+            continue
+        ch = direct_chain(fd, c.args[1])
+        for gi in direct_chain(fd, c.args[1], want_instrs=True):
+            if (gi.callee or "").endswith("HashMap::get") and len(gi.args) > 1:
+                ch = ch + direct_chain(fd, gi.args[1])      # ... and which vehicle's tour is looked up
+        names = {x.split("::")[-1] for x in ch}
+        if "first" in names and "last" not in names:
+            verdicts.append((c, False, "the transfer starts at the FIRST vehicle of the cluster"))
+        elif "start_depot" in names and "end_depot" not in names:
+            verdicts.append((c, False, "the transfer starts at a start depot"))
+        elif "last" in names and "end_depot" in names:
+            verdicts.append((c, True, "from end_depot(last vehicle)"))
+    wrong = [v for v in verdicts if not v[1]]
+    if wrong:
+        ctx.bad(o, "%s (%s): with three or more vehicles in a cluster the cached counter of the cycle differs from the sum over its links" % (
+            wrong[0][2], wrong[0][0].line()), loc=wrong[0][0].line())
+    elif verdicts:
+        ctx.ok(o, verdicts[0][2])
+    else:
+        ctx.undecided(o, "the link of the appended vehicle is not in a recognised form")
 
 
 def completeness_loops(ctx, rid):
